@@ -732,7 +732,7 @@ Proof.
     cbn [app]. rewrite Ew. reflexivity.
   - (* make expression *)
     destruct (Hrx w r x H1) as (e & Ee & Hne' & Ex).
-    exists (mk_atom ShtExpr e (Qq q)), iw, q, r.
+    exists (mk_atom ShtExpr e (Qq q)), true, q, r.
     split.
     { unfold sh_atom. cbn [app] in *. rewrite Ex. reflexivity. }
     cbn [a_quot a_text a_type is_word]. repeat split; auto.
@@ -1113,3 +1113,51 @@ Proof.
 Qed.
 
 End Words.
+
+(* ---------- the test word_scan is sound for the grammar wordp ---------- *)
+
+Lemma word_scan_sound rx fuel : forall q u, word_scan rx fuel q u = true -> wordp rx q u.
+Proof.
+  induction fuel as [|f IH]; intros q u H; [discriminate|].
+  cbn [word_scan] in H. destruct u as [|c t].
+  - destruct q; try discriminate. constructor.
+  - destruct q.
+    + (* outside quotes *)
+      destruct (N.eqb_spec c 34) as [->|]; [apply WP_dq, IH, H|].
+      destruct (N.eqb_spec c 39) as [->|]; [apply WP_sq, IH, H|].
+      destruct (N.eqb_spec c 92) as [->|].
+      { destruct t as [|d t1]; [discriminate|].
+        destruct (d =? 36) eqn:D.
+        - destruct t1 as [|e t2]; [discriminate|]. apply andb_true_iff in H as [E H].
+          apply N.eqb_eq in D, E. subst d e. apply W_escdd; [discriminate|apply IH, H].
+        - apply andb_true_iff in H as [L H]. apply W_esc; auto; discriminate. }
+      destruct (N.eqb_spec c 36) as [->|].
+      { destruct t as [|d w]; [discriminate|]. destruct (N.eqb_spec d 36) as [->|].
+        - destruct (shvar_rest w) as [r|] eqn:S; [|discriminate]. apply (W_shvar rx WPlain w r); auto; discriminate.
+        - destruct (rx (36 :: d :: w)) as [r|] eqn:R; [|discriminate]. apply (W_mk rx WPlain (d :: w) r); auto; discriminate. }
+      apply andb_true_iff in H as [T H]. apply WP_text; auto.
+    + (* inside double quotes *)
+      destruct (N.eqb_spec c 34) as [->|]; [apply WD_close, IH, H|].
+      cbn match in H.
+      destruct (N.eqb_spec c 92) as [->|].
+      { destruct t as [|d t1]; [discriminate|].
+        destruct (d =? 36) eqn:D.
+        - destruct t1 as [|e t2]; [discriminate|]. apply andb_true_iff in H as [E H].
+          apply N.eqb_eq in D, E. subst d e. apply W_escdd; [discriminate|apply IH, H].
+        - apply andb_true_iff in H as [L H]. apply W_esc; auto; discriminate. }
+      destruct (N.eqb_spec c 36) as [->|].
+      { destruct t as [|d w]; [discriminate|]. destruct (N.eqb_spec d 36) as [->|].
+        - destruct (shvar_rest w) as [r|] eqn:S; [|discriminate]. apply (W_shvar rx WDq w r); auto; discriminate.
+        - destruct (rx (36 :: d :: w)) as [r|] eqn:R; [|discriminate]. apply (W_mk rx WDq (d :: w) r); auto; discriminate. }
+      apply andb_true_iff in H as [T H]. apply WD_byte; auto.
+    + (* inside single quotes *)
+      destruct (N.eqb_spec c 39) as [->|]; [apply WS_close, IH, H|].
+      apply andb_true_iff in H as [T H]. apply WS_byte; auto.
+Qed.
+
+Lemma simple_word_b_sound rx w : simple_word_b rx w = true -> simple_word rx w.
+Proof.
+  unfold simple_word_b, simple_word. intro H. apply andb_true_iff in H as [Hn H].
+  split; [destruct w; [discriminate|discriminate]|].
+  apply orb_true_iff in H as [H|H]; [left; exact (word_scan_sound rx _ _ _ H)|right; exact H].
+Qed.
